@@ -74,7 +74,8 @@ class SimSlave:
         self.value_log: dict[str, list] = {}      # per port: successive values (consecutive duplicates removed)
         self.trace: list = []                     # what reaches the master, in order: ('deliver'|'fail', t, method, path, body, code, resp)
         self.slow: dict[str, str] = {}            # port id -> 'later' | 'never': value writes are answered 202
-        self.fail_next: set[str] = set()          # port ids whose next PATCH (attributes or value) answers 502
+        self.fail_next: set[str] = set()          # port ids / 'device' / 'webhooks' / 'reverse' whose next push is refused
+        self.drop_next: set[str] = set()          # same targets: the next push is APPLIED but its answer is lost
         self.pusher = None                        # pushed-events mode: callable(event json) posting to the master
         self.inflight = 0                         # requests (other than the long-poll) sent by the master, not yet answered
         self._flush_scheduled = False
@@ -271,6 +272,13 @@ class SimSlave:
             return self._listen(sid, timeout, waiter)
         code, obj = self._dispatch(method, path.rstrip('/') or '/', body)
         entry['status'] = code
+        if method != 'GET':
+            parts = path.strip('/').split('/')
+            target = parts[1] if parts[0] == 'ports' and len(parts) > 1 else parts[0]
+            if target in self.drop_next:
+                self.drop_next.discard(target)
+                entry['answer_lost'] = True
+                return respond(None, None)          # applied, but the master never sees the answer
         respond(code, obj)
 
     def _dispatch(self, method, path, body):
@@ -280,6 +288,9 @@ class SimSlave:
             if method == 'PATCH':
                 if not isinstance(body, dict):
                     return 400, {'error': 'malformed-body'}
+                if 'device' in self.fail_next:
+                    self.fail_next.discard('device')
+                    return 400, {'error': 'invalid-field', 'field': 'display_name'}
                 for k in body:
                     if k not in DEVICE_MODIFIABLE and k not in self.device_extra_modifiable:
                         code = 'attribute-not-modifiable' if k in self.device else 'no-such-attribute'
@@ -351,6 +362,9 @@ class SimSlave:
             store = self.webhooks if path == '/webhooks' else self.reverse
             if method == 'GET':
                 return 200, dict(store)
+            if method in ('PUT', 'PATCH') and path[1:] in self.fail_next:
+                self.fail_next.discard(path[1:])
+                return 400, {'error': 'invalid-field', 'field': 'host'}
             if method in ('PUT', 'PATCH'):
                 if not isinstance(body, dict):
                     return 400, {'error': 'malformed-body'}
@@ -581,6 +595,8 @@ class Hub:
             return ('accepted',)
         except self.core_api.APIError as e:
             return ('err', e.status, e.code)
+        except Exception as e:       # what the web layer turns into a 500
+            return ('err', 500, type(e).__name__)
 
     async def add_slave(self, sim: SimSlave, mode: str, poll_interval: int = 2):
         params = {'scheme': 'http', 'host': sim.host, 'port': 80, 'path': '/', 'admin_password': ''}
@@ -610,6 +626,21 @@ class Hub:
             return ('err', 0, 'no-answer')
         except self.core_api.APIError as e:
             return ('err', e.status, e.code)
+
+    async def restart_slaves(self):
+        """A master restart as far as the slaves package is concerned: everything held in memory is dropped and the
+        Slave objects (and, later, their ports) are re-created from the persisted `slaves` / `slave_ports` collections by
+        the package's own `slaves.devices.load()`. Reset by hand: the module registry `slaves.devices._slaves_by_name`
+        (cleared) and the slave ports in the core port registry (removed through the public `port.remove(
+        persisted_data=False)`, which keeps their persisted records)."""
+        from qtoggleserver.slaves.ports import SlavePort
+        sd = self.slaves_devices
+        await sd.cleanup()
+        for port in list(self.core_ports.get_all()):
+            if isinstance(port, SlavePort):
+                await port.remove(persisted_data=False)
+        sd._slaves_by_name.clear()
+        await sd.load()
 
     async def remove_slave(self, name: str):
         return await self.api(self.api_devices.delete_slave_device, name, method='DELETE', path=f'/devices/{name}')
